@@ -202,6 +202,7 @@ def run_case(case, tier):
         res["unknown_check"] = st["unknown"]
         res["nontrivial"] = st["paths"]
         res["sample"] = {"doc": name, "set_iteration_events": st["events"], "order_paths": st["paths"]}
+        _validate(case, res)
         return res
     if case["kind"] == "history_sym":
         st = run_history_sym_case(case["doc"], case["vary"])
@@ -210,6 +211,10 @@ def run_case(case, tier):
         res["unknown_check"] = st["unknown_check"]
         res["nontrivial"] = st["paths"]
         res["sample"] = {"doc": case["doc"], "vary": case["vary"], "paths": st["paths"]}
+        import zlib
+
+        if case["vary"] is None or zlib.crc32(f"{case['doc']}/{case['vary']}".encode()) % 4 == 0:
+            _validate(case, res)
         return res
     out_after, out_fresh = run_history_case(case["a"], case["b"])
     res["paths"] = 2
@@ -224,6 +229,18 @@ def run_case(case, tier):
             "decisions": [],
         })
     return res
+
+
+def _validate(case, res):
+    """translator validation: where the symbolic verdict is 'held', the real package must agree on
+    the concrete instance (hash seeds / one process vs fresh process)"""
+    if res["failures"]:
+        return
+    rep = replay(case, {"label": "validation", "inputs": {}})
+    if rep.get("reproduced"):
+        res["inconclusive"].append(f"translator validation: real package disagrees: {rep.get('detail')}")
+    else:
+        res["validated"] += 1
 
 
 def orig_text(t):
@@ -322,7 +339,7 @@ def replay(case, failure):
         "except Exception as e:\n    print('EXC:%s:%s' % (type(e).__name__, e))\n"
     )
     seen = set()
-    for seed in range(0, 24):
+    for seed in range(0, 24 if failure.get("label") != "validation" else 6):
         p = subprocess.run([sys.executable, "-c", code], input=json.dumps([text, kw]), capture_output=True, text=True, env=dict(os.environ, PYTHONHASHSEED=str(seed)))
         seen.add(p.stdout)
     return {"reproduced": len(seen) > 1, "detail": f"{len(seen)} distinct outputs over 24 PYTHONHASHSEED values"}
